@@ -75,8 +75,14 @@ fn main() {
             let o = observe(&tx, metx, utxos, env, &s.cs, s.counts);
             let term = if args.oracle_only { String::new() } else {
                 let bw: Vec<pallas_primitives::byron::Twit> = if let AnyTx::Byron(p) = &tx { p.witness.iter().cloned().collect() } else { vec![] };
-                format!("({},{},{},{},{},{})", coq_bool(profile != "release"), va::tx_term(&tx, metx, utxos, env, &o, &s.cs, s.counts), va::utxo_term(utxos, &bw), va::env_term(env),
-                        o.e2e.coq(), coq_list(&o.checks, |c| c.1.coq()))
+                // the abstraction calls public helpers of the implementation (sizes, hashes): a panic there is an
+                // implementation panic too and must surface as an oracle failure, never kill the harness
+                match guard_total(|| format!("({},{},{},{},{},{})", coq_bool(profile != "release"), va::tx_term(&tx, metx, utxos, env, &o, &s.cs, s.counts), va::utxo_term(utxos, &bw), va::env_term(env),
+                        o.e2e.coq(), coq_list(&o.checks, |c| c.1.coq()))) {
+                    Out::Ok(t) => t,
+                    Out::Panic(m) => { emit_oracle_fail(&format!("{}.abstraction-helper:{}@{}", fam_name(&tx), msg_class(&m), last_site()), &format!("profile={} mutators={} panic={} {}", profile, s.trail.join("+"), m, scen_text(&s, "?"))); String::new() }
+                    Out::Err(_) => String::new(),
+                }
             };
             (fam_name(&tx), o, term)
         });
@@ -86,7 +92,7 @@ fn main() {
         if !args.oracle_only {
             let tag = if it < base.len() { format!("{}:fixture", fam) } else if it < nfix { format!("{}:{}", fam, if trail.starts_with("sweep") { trail.split('(').next().unwrap_or("sweep") } else { "corpus" }) }
                       else { format!("{}:{}", fam, match &o.e2e { Oc::Ok => "mutant-accepted".to_string(), Oc::Err(c) => format!("mutant-err{}", c / 100 * 100), Oc::Panic(_) => "mutant-panic".to_string() }) };
-            emit_case(&tag, &term);
+            if !term.is_empty() { emit_case(&tag, &term); }
         }
         let mut any = false;
         for (cn, c) in &o.checks {
